@@ -753,6 +753,34 @@ def digit_strings(ctx):
         ok = r is not None and r.get("d") in seeded
         ctx.ob("R07.8", "get_number|%s|converts-a-digit-string" % callee_short(c), ok, fn.loc(c), "%s converts %s" % (callee_short(c), show(a0)[:30] if a0 is not None else "?"))
     ctx.floor("R07.8", "numeric conversions in get_number", len(conv), 4)
+    # R07.10: C++14 digit separators may stand between any two digits of any digit sequence (hex, binary, decimal,
+    # fraction, exponent); each collecting loop must look for one after every digit, with the loop's own digit class
+    ctx.rule("R07.10", "every digit-collecting loop of get_number re-reads its look-ahead through skip_digit_separator(); the hexadecimal loop passes hex = true so that a separator may precede a letter digit")
+    n10 = 0
+    for lp in fn.walk():
+        if lp.get("k") != "while":
+            continue
+        appends = [x for x in walk(lp.get("body") or {}) if x.get("k") == "call" and callee_short(x) == "operator+=" and any(c.get("k") == "call" and callee_short(c) == "get" for c in walk(x))]
+        if not appends:
+            continue
+        n10 += 1
+        rereads = [t for t in (assigned_target(x) for x in walk(lp["body"])) if t]
+        via = [r for l, r in rereads if any(c.get("k") == "call" and callee_short(c) == "skip_digit_separator" for c in walk(r))]
+        hexloop = any(c.get("k") == "call" and callee_short(c) in ("tolower", "isxdigit") for c in walk(lp.get("c") or {}))
+        ok = bool(via)
+        inst = "get_number|%s-digits" % ("hex" if hexloop else _norm_cond(show(lp.get("c"))))
+        ctx.ob("R07.10", inst + "|looks-for-separator", ok, fn.loc(lp), "the loop `%s` %s" % (show(lp.get("c"))[:50], "re-reads through skip_digit_separator()" if ok else "re-reads with a bare peek(): a digit separator ends the literal"))
+        if hexloop and via:
+            call = [c for c in walk(via[0]) if c.get("k") == "call" and callee_short(c) == "skip_digit_separator"][0]
+            a = [x for x in call.get("a", []) if x.get("k") != "defarg"]
+            okh = len(a) == 2 and const_int(a[1]) == 1
+            ctx.ob("R07.10", inst + "|hex-class", okh, fn.loc(call), "skip_digit_separator is %scalled with hex = true in the hexadecimal loop" % ("" if okh else "NOT "))
+    ctx.floor("R07.10", "digit-collecting loops", n10, 5)
+
+
+def _norm_cond(t):
+    import re as _re
+    return _re.sub(r"[^A-Za-z0-9]+", "_", t)[:30]
 
 
 
